@@ -16,7 +16,7 @@
    NOT proved: that a two-block Gibbs sweep on a continuous space leaves the joint invariant (integration), that the
    Beta / Gamma densities integrate to one, and that scipy's rvs sample from them.
    The Gamma function is a variable [Gam] with the visible premises Gam (s+1) = s * Gam s and Gam s > 0 for s > 0. *)
-From PV Require Import Model.Concentration Proofs.ConcentrationProofs.
+From PV Require Import Model.Concentration Proofs.ConcentrationProofs Proofs.ConcentrationBridge.
 Local Open Scope R_scope.
 
 Theorem C13_mixture_is_target : forall Gam, Gamma_like Gam ->
@@ -63,13 +63,29 @@ Theorem C13_weight_closed_form : forall (a b : Qc) (K n : nat) (L : Qc),
 Proof. exact pi_mix_closed_pos. Qed.
 Print Assumptions C13_weight_closed_form.
 
+(* the executable parameter model (Qc; what the correspondence compares with the recorded rvs arguments) denotes the
+   real-valued weight, shape, scale and Beta parameters of the theorems above, with r = b + L, L = -log eta *)
+Theorem C13_params_denote : forall (a b : Qc) (K n : nat) (L : Qc) (z : bool),
+  (0 < a)%Qc -> (0 < b)%Qc -> (0 < L)%Qc -> (1 <= K)%nat -> (1 <= n)%nat ->
+  qr (pi_mix a b K n L) = pi_R (qr a) K n (qr b + qr L)
+  /\ qr (shape1 a K z) = qr a + INR K - 1 + (if z then 1 else 0)
+  /\ qr (scale b L) = / (qr b + qr L)
+  /\ qr (beta_a a) = qr a + 1 /\ qr (beta_b n) = INR n.
+Proof. exact params_denote. Qed.
+Print Assumptions C13_params_denote.
+
+(* non-vacuity of the premises on the Gamma function: some function satisfies both (Euler's Gamma is not in the stdlib) *)
+Example C13_Gamma_like_satisfiable : exists Gam : R -> R, Gamma_like Gam.
+Proof. exists Gw. exact Gamma_like_satisfiable. Qed.
+Print Assumptions C13_Gamma_like_satisfiable.
+
 (* ---- non-vacuity (parameter model, executable) ---- *)
 Local Open Scope Qc_scope.
 Example C13_params_example :
   map call_q (sample_calls (Q2Qc (1#2)) (Q2Qc 2) (Q2Qc 3) 2 5 (Q2Qc 1) true) = [[4; 5]; [1#11]; [5#2; 1#3]]%Q
   /\ map call_q (sample_calls (Q2Qc (1#2)) (Q2Qc 2) (Q2Qc 3) 0 5 (Q2Qc 1) true) = [[1#2; 1#2]]%Q
   /\ this (sample_value 2 (Q2Qc (1 # 100000000000))) = (1 # 10000000000)%Q
-  /\ this (sample_value 0 (Q2Qc (1 # 100000000000))) = (1 # 100000000000)%Q.
+  /\ this (sample_value 0 (Q2Qc (37 # 100))) = (37 # 100)%Q.
 Proof. repeat split; vm_compute; reflexivity. Qed.
 Print Assumptions C13_params_example.
 
